@@ -17,6 +17,14 @@ CHECKS = {
          "For ~90 lifecycle scripts over {start, execute(ok|panic|rendezvous)*, stop, drop} with N in 1..3 workers and up to 3 (thorough 4) tasks, every subset of panicking tasks, every schedule of submitter, workers and recovery thread with at most 1-3 preemptions (per-script bound in the evidence) is executed on the real pool code running on real OS threads with the real std Mutex/mpsc/thread behind a scheduling facade. Each complete schedule is checked: every task started exactly once and finished; the caller returned from stop/drop (deadlock = no enabled thread while the caller is blocked); at quiescence every worker thread has exited (only the detached recovery thread may remain); N rendezvous tasks complete only if N really run concurrently, also after a panic.",
          "Trusted: the facade's enabledness mirror (a mirror mistake makes a real primitive block, which surfaces as a machinery error, not a verdict) and that scheduling points at sync operations suffice (no unsafe, no other shared state in the pool). Schedules with more preemptions than the completed bound are not covered; sampling beyond the bound is deliberately not done.",
          "DESIGN.md §3 C08"),
+ "C10": ("E2-enum", "bounded-exhaustive enumeration of frames x read-segmentation plans against a reference RFC 6455 encoder",
+         "Every frame of FIN x 8 RSV combinations x 6 opcodes x {unmasked, 4 (7) masking keys} x 11 (19) payload-length classes around 125/126, 65535/65536 (reduced header product above 1 KiB) is encoded by the real encoder through a guarded wrapper, compared byte-for-byte with a reference encoder (shortest length form, masked payload), and decoded by the real decoder under every read plan: whole, byte-by-byte, every single cut in the first 16 and last 2 bytes (thorough: every pair). All 65,536 two-byte headers are completed, cut one byte short and cut after the header; reserved opcodes must give InvalidOpcode, truncations ReadError. Message::to_frame is compared with the reference for every length class.",
+         "Trusted: reference encoder (25 lines). Payload contents are one position-dependent pattern per length, not all byte strings. 64-bit lengths that exceed memory belong to C03.",
+         "DESIGN.md §3 C10"),
+ "C18": ("E2-enum", "exhaustive enumeration of the primitives' input domains against independent references cross-checked with CPython",
+         "SHA-1 on every length 0..1100 x 3 contents and 2^k-1/2^k/2^k+1 up to 64 KiB (1 MiB); Base64 on all 2^24+2^16+2^8 inputs of <=3 bytes (encode = reference, decode(encode(x)) = x), decode of every 4-symbol group over the alphabet plus '=' plus an illegal symbol (66^4), odd lengths and misplaced padding; percent-encoding of every byte and byte pair with round trip, decode of every string of <=5 (6) symbols over {%,0,9,a,F,g,+,SP,e-acute}; HTTP dates for every day from 1970-01-01 to 9999-12-31 at 00:00:00 and 23:59:59 and every second of 7 boundary days. Any disagreement with the reference is a counter-example.",
+         "Trusted: the reference SHA-1/Base64/percent/civil-date code in checks/src/props/c18.rs, itself compared with CPython's hashlib/base64/urllib.parse/email.utils on ~700 cases at the start of every run (disagreement = machinery error). Non-canonical Base64 pad bits may be accepted or rejected.",
+         "DESIGN.md §3 C18"),
 }
 NOT_YET = {}
 
